@@ -272,6 +272,37 @@ def rule_bit_delegation(ctx):
                           "epoch bits included): two handles to one object that came through links written in different epochs "
                           "differ in it" % tg[:70], b.loc(bi))
     r.instance("no handle method observes the packed word as a whole (%d calls of Tagged trait impls, all of Clone/Default/Debug/Pointer/From)" % nraw, True)
+    # inside Tagged itself, the packed field is tested for null (or turned into a reference) only after as_raw() stripped the tag
+    # and epoch bits: `self.ptr.is_null()` on the packed word takes a tagged or stamped null for an object (S-C11-9: a new
+    # Tagged::as_mut written that way)
+    from .sym import strip, subterms
+    NULLISH = ("std::ptr::mut_ptr::is_null", "std::ptr::const_ptr::is_null", "std::ptr::mut_ptr::as_ref", "std::ptr::mut_ptr::as_mut",
+               "std::ptr::const_ptr::as_ref")
+    npk = 0
+    for name, b in sorted(prog.bodies.items()):
+        home = prog.home(name) if b.kind == "closure" else name
+        hb = prog.bodies.get(home)
+        isf = (hb.j.get("impl_self") or "") if hb is not None else ""
+        if not isf.startswith("ebr_impl::pointers::Tagged") or "::test" in name or b.kind == "closure":
+            continue
+        if not any(norm(c.target or "") in NULLISH for x in [b] + list(prog.closures_of(name)) for (_, _, c) in x.calls()):
+            continue
+        for p_ in ctx.ex.paths(b):
+            for e in p_.events:
+                if e.kind != "call" or (e.ntarget or "") not in NULLISH or not e.args:
+                    continue
+                a0 = e.args[0]
+                stripped = any(x[0] == "call" and norm(x[1]) in ("ebr_impl::pointers::Tagged::as_raw", "ebr_impl::pointers::with_tag",
+                                                                  "ebr_impl::pointers::low_bits") for x in subterms(a0)) or \
+                    any(x[0] == "bin" and x[1] in ("BitAnd",) for x in subterms(a0))
+                packed = any(x[0] == "field" and str(x[1]).endswith("ptr") for x in list(subterms(a0)) + [strip(a0)] if isinstance(x, tuple))
+                npk += 1
+                okp = stripped or not packed
+                r.instance("%s: `%s` is applied to the stripped address" % (name.split("::")[-1], e.ntarget.split("::")[-1]), okp)
+                if not okp:
+                    r.violate(name, "packed-null-test", "`%s` is applied to the packed word (tag and epoch bits included): a null "
+                              "pointer that carries a tag or a stamp is taken for an object" % e.ntarget, e.loc())
+            break
     r.require(n, 30, "delegation instances")
     return r
 
